@@ -199,3 +199,10 @@ def _r10_3(ctx):
 # sensitivity pack (thorough tier): each seeded edit must be reported by the named rule instance
 MUTANTS = [{'name': 'seeded-C10-a', 'patch': 'C10-a/patch.diff', 'expect': ('R10.1', 'RuneEntry::start', 'saturating_add')},
            {'name': 'seeded-C10-b', 'patch': 'C10-b/patch.diff', 'expect': ('R10.3', 'index_runes', 'never followed by mint')}]
+
+
+# behaviour-preserving pack (thorough tier)
+NEUTRAL = [
+  {'name': 'mintable: cap and start tests commuted', 'file': 'src/index/entry.rs', 'old': '    if self.mints >= cap {', 'new': '    if cap <= self.mints {'},
+  {'name': 'mintable: start test commuted', 'file': 'src/index/entry.rs', 'old': '      && height < start\n', 'new': '      && start > height\n'},
+]
